@@ -373,7 +373,8 @@ def run_dynamic(ctx: Ctx, prog, Sg, info):
                 if o["kind"] not in VIOLATION_KINDS:
                     ctx.count("dyn_other:" + o["kind"])
                     continue
-                g = (case.func, o["kind"], o.get("site") or "", o.get("what") or "")
+                st = o.get("site") or ""
+                g = (case.func, st.split(":")[1] if st.count(":") >= 2 else "")
                 groups.setdefault(g, []).append((case.cid, mode, o, case))
     ctx.count("dynamic_cases", len(cases))
     ctx.count("dynamic_runs", nrun)
@@ -383,31 +384,46 @@ def run_dynamic(ctx: Ctx, prog, Sg, info):
     if unknown_entries:
         ctx.notes.append("dynamic entry points without a static counterpart (inherited from outside the 10 modules or "
                          "harness naming): " + ", ".join(sorted(unknown_entries)))
+    # observations without a write site (results that differ under aliasing) join the entry point's group
+    for (func, root), lst in list(groups.items()):
+        if root == "":
+            others = [g for g in groups if g[0] == func and g[1] != ""]
+            if len(others) >= 1:
+                groups[sorted(others)[0]].extend(lst)
+                del groups[(func, root)]
+    mode_pri = {"cb_arg": 0, "cb_cached": 1, "plain": 2, "readonly": 3, "same": 4}
+    kind_pri = {"arg_mutated": 0, "callback_arg_mutated": 1, "callback_result_mutated": 2, "readonly_error": 3, "alias_result_differs": 4}
     out = []
     reproduced_sites = set()
     for g, lst in sorted(groups.items()):
-        func, kind, site, what = g
-        lst.sort(key=lambda x: (x[0], DY.MODES.index(x[1])))
+        func, root = g
+        lst.sort(key=lambda x: (not (x[2].get("site") or ""), mode_pri.get(x[1], 9), kind_pri.get(x[2]["kind"], 9), x[0]))
         cid, mode, o, case = lst[0]
+        kind, site, what = o["kind"], o.get("site") or "", o.get("what") or ""
         entries = [case.func] + list(getattr(case, "also", []) or [])
         may_write = any(not okmap.get(norm_name(n), True) for n in entries)
+        sites = sorted({x[2].get("site") for x in lst if x[2].get("site")})
         site_ok = True
-        if site:
-            parts = site.split(":")
+        for s_ in sites:
+            parts = s_.split(":")
             try:
-                site_ok = (parts[0], int(parts[-1])) in bad_lines
+                ok_ = (parts[0], int(parts[-1])) in bad_lines
             except ValueError:
-                site_ok = False
-            if site_ok:
+                ok_ = False
+            site_ok = site_ok and ok_
+            if ok_:
                 reproduced_sites.add((parts[0], int(parts[-1])))
+        kinds = sorted({x[2]["kind"] for x in lst})
         key = f"{cid}|{mode}|{kind}|{what}"
         observed = site or kind
         text = (f"{func}: {kind} ({what}) in mode {mode}" + (f", write site {site}" if site else "") +
-                f": {o.get('detail', '')}  [{len(lst)} runs show it]")
+                f": {o.get('detail', '')}  [{len(lst)} observations in {len({(c, m) for c, m, _, _ in lst})} runs; kinds: "
+                f"{', '.join(kinds)}; sites: {', '.join(sites)}]")
         rec = {"key": key, "observed": observed, "text": text, "site": site, "repro": getattr(case, "repro", None)}
         out.append(rec)
-        replay = {"reproduce": getattr(case, "repro", None), "mode": mode, "observation": o, "runs": [(c, m) for c, m, _, _ in lst][:20]}
-        if kind != "alias_result_differs" and not (may_write and site_ok):
+        replay = {"reproduce": getattr(case, "repro", None), "mode": mode, "observation": o,
+                  "all_sites": sites, "kinds": kinds, "runs": sorted({(c, m) for c, m, _, _ in lst})[:30]}
+        if not (may_write and site_ok):
             ctx.fail("C20_tie", key, observed,
                      "BROKEN TIE (the static analysis did not predict this write: entry point accepted by the checker"
                      " or write site not among its failing sites) - " + text, replay)
